@@ -246,12 +246,15 @@ func (g *gen) slice(class string, allowEmpty, typedOnly bool) Val {
 			v.L = append(v.L, g.floatVal())
 		}
 	default:
-		v.K = []string{KInts, KI64s, KAnys, KIDs, KArr3}[g.pick("ik", 5)]
+		v.K = []string{KInts, KI64s, KAnys, KIDs, KArr3, KLevels, KLevArr, KTinys, KPorts}[g.pick("ik", 9)]
 		if typedOnly && !v.EqList() && !g.oddEqList() {
 			v.K = KI64s
 		}
 		if v.K == KArr3 {
 			n = 3
+		}
+		if v.K == KLevArr {
+			n = 2
 		}
 		for i := 0; i < n; i++ {
 			if v.K == KAnys {
@@ -277,6 +280,12 @@ func (g *gen) slice(class string, allowEmpty, typedOnly bool) Val {
 				v.L[i].K = KStr
 			case KInts, KI64s, KIDs, KArr3:
 				v.L[i].K = KInt
+			case KLevels, KLevArr: // named uint8 elements: small numbers, each one bound value
+				v.L[i] = Val{K: KInt, I: int64(1 + g.payload("level", 250))}
+			case KTinys:
+				v.L[i] = Val{K: KInt, I: int64(g.payload("tiny", 200) - 100)}
+			case KPorts:
+				v.L[i] = Val{K: KInt, I: int64(1000 + g.payload("port", 60000))}
 			}
 		}
 	}
@@ -526,6 +535,10 @@ func (g *gen) posTmpl(sc scope, n int, prefix string, rich bool) *Tmpl {
 	for i := 0; i < n; i++ {
 		if i > 0 {
 			b.WriteString(g.oneOf("joiner", " AND ", " OR ", " AND ", "\nOR "))
+		}
+		if g.pct("aposcomment", 10) {
+			// an apostrophe that does not delimit a string literal: inside a comment
+			b.WriteString(g.oneOf("apos", "/* don't */ ", "/* it's o'clock' */ ", "-- can't\n"))
 		}
 		t.Slots = append(t.Slots, g.piece(sc, &b, rich)...)
 	}
@@ -1018,13 +1031,6 @@ func (g *gen) query() *Chain {
 			c.FindBatch = 1 + g.pick("findbatch", 3) // fewer than the seeded rows: further batches follow
 		}
 		c.Conds = g.conds(sc, g.weighted("nconds", 10, 30, 30, 20, 10), false)
-		for i := range c.Conds {
-			// the "key > last key" condition FindInBatches appends is ANDed to the last condition only: with
-			// a top-level Or the same rows come back for ever (not this property's subject, see COVERAGE.md)
-			if c.Conds[i].Op == "or" {
-				c.Conds[i].Op = "where"
-			}
-		}
 		return c
 	}
 	if !grouped && g.pct("distinct", 8) {
